@@ -36,3 +36,15 @@ KANI['c17_ref_expr'] = {
                   ('crates/cairo-lang-sierra-to-casm/src/references.rs', 'impl ApplyApChange for ReferenceExpression', 'can_apply_unknown')],
     'trusted': [],
 }
+
+NATIVE = {
+    'n_c17_return': {
+        'crate': 'cairo-lang-sierra-to-casm',
+        'host': 'crates/cairo-lang-sierra-to-casm/src/annotations.rs',
+        'harness': 'native/cairo-lang-sierra-to-casm/n_c17_return.rs',
+        'props': {'C17'},
+        'bound': 'declared change in {None,0,1,2,3,MAX-1,MAX} x tracking {Disabled, Enabled x 3 bases} x 3 frame states',
+        'functions': [('crates/cairo-lang-sierra-to-casm/src/annotations.rs', 'impl ProgramAnnotations', 'validate_return_properties'),
+                      ('crates/cairo-lang-sierra-to-casm/src/annotations.rs', 'impl ProgramAnnotations', 'validate_final_annotations')],
+    },
+}
